@@ -323,7 +323,8 @@ impl WriteAheadLog {
                 return Ok(());
             }
             // Block zero is full, create first current_block
-            self.current_block = Some(WalBlock::new(self.block_size));
+            let next_id = self.get_next_block();
+            self.current_block = Some(WalBlock::alloc(next_id, self.block_size));
         }
 
         // Write to current_block
@@ -370,31 +371,25 @@ impl WriteAheadLog {
     }
 
     pub fn perform_flush(&mut self) -> io::Result<()> {
-        // Block 0 always exists, additional blocks start at index 1
-        let mut block_number: u64 = 1;
-        let mut write_offset = self.block_size as u64;
+        let block_size = self.block_size as u64;
 
-        // Flush queued blocks
+        // Full blocks waiting in the queue. Every block lives at [block_number] * [block_size]:
+        // blocks flushed by earlier calls must not be overwritten by later ones.
         while let Some(block) = self.flush_queue.pop_front() {
+            let write_offset = block.metadata().block_number * block_size;
             self.file.seek(SeekFrom::Start(write_offset))?;
             self.file.write_all(block.as_ref())?;
-            block_number += 1;
-            write_offset += self.block_size as u64;
         }
 
-        // Flush current block if it has data
+        // The block being filled is written as well (a commit must be durable), but it stays in
+        // memory: later records are appended to it and it is rewritten at the same offset.
+        // [total_blocks] is maintained by [get_next_block] when a block is allocated.
         if let Some(ref block) = self.current_block {
             if block.metadata().used_bytes > 0 {
+                let write_offset = block.metadata().block_number * block_size;
                 self.file.seek(SeekFrom::Start(write_offset))?;
                 self.file.write_all(block.as_ref())?;
-                block_number += 1;
             }
-        }
-
-        // Update header metadata
-        self.header.metadata_mut().wal_header.total_blocks = block_number;
-
-        if let Some(block) = self.current_block.take() {
             self.header.metadata_mut().wal_header.last_block_used =
                 block.metadata().used_bytes as u32;
         } else {
